@@ -299,6 +299,11 @@ class C12:
                 te_hdrs.append((gen.randcase(rng, b"Transfer-Encoding"), fmt(toks[cut:]).strip(b" \t")))
             else:
                 te_hdrs.append((gen.randcase(rng, b"Transfer-Encoding"), fmt(toks).strip(b" \t")))
+            if rng.chance(1, 6):
+                # a list may end in a comma (an empty last element is no element: `split_terminator`), so `chunked` is still
+                # the final coding (eighth round: the rewrite cut the value at its last comma)
+                a, b = te_hdrs[-1]
+                te_hdrs[-1] = (a, b + rng.pick([b",", b" ,", b", ", b",\t"]).rstrip(b" \t"))
             at = 0
             for th in te_hdrs:      # keep the order of the Transfer-Encoding headers among themselves
                 at = rng.randint(at, len(hs))
